@@ -625,6 +625,82 @@ func c19VolumeEnum() mc.Enum {
 	return e
 }
 
+// c19Exotic are field contents that stateless validation and the handlers may accept although no client sends them.
+var c19Exotic = []string{"*", "b\u00fcro", "mail.dev", " ", "a/b", `q"uote`, "<b>x</b>", "%d%x", "UPPER", "tab\there", strings.Repeat("long", 80)}
+
+// c19ContentsEnum: one record whose free-text field holds an unusual value, for every free-text field a transaction can
+// set, followed by the full export -> validate -> import -> export round trip. A value the message refuses is no case.
+func c19ContentsEnum() mc.Enum {
+	e := mc.Enum{Prop: "C19", Name: "C19/export-import-contents", Cfg: c19Config()}
+	type field struct {
+		name string
+		prep func(env world.Env, u, b string)
+		msg  func(u, b, v string) sdk.Msg
+	}
+	regName := func(env world.Env, u, b string) {
+		mustOK(env.Deliver(rnstypes.NewMsgRegisterName(u, "alpha.jkl", 1, "{}", true)), "register")
+	}
+	provision := func(env world.Env, u, b string) {
+		mustOK(env.Deliver(fttypes.NewMsgProvisionFileTree(u, jmap(map[string]string{ftEditorID(c10Track, u): "k"}), jmap(map[string]string{ftViewerID(c10Track, u): "k"}), c10Track)), "provision")
+	}
+	plan := func(env world.Env, u, b string) {
+		mustOK(env.Deliver(storagetypes.NewMsgBuyStorage(u, u, 30, 1_000_000_000, "ujkl")), "plan")
+	}
+	provider := func(env world.Env, u, b string) {
+		mustOK(env.Deliver(storagetypes.NewMsgInitProvider(b, "https://node.one.com", 1000, "kb")), "InitProvider")
+	}
+	f := mkFile(seqBytes(12, 7), 4)
+	fields := []field{
+		{"rns-record-label", regName, func(u, b, v string) sdk.Msg { return rnstypes.NewMsgAddRecord(u, "alpha.jkl", v, u, "{}") }},
+		{"rns-record-data", regName, func(u, b, v string) sdk.Msg { return rnstypes.NewMsgAddRecord(u, "alpha.jkl", "sub", u, v) }},
+		{"rns-record-value", regName, func(u, b, v string) sdk.Msg { return rnstypes.NewMsgAddRecord(u, "alpha.jkl", "sub", v, "{}") }},
+		{"rns-name-data", nil, func(u, b, v string) sdk.Msg { return rnstypes.NewMsgRegisterName(u, "beta.jkl", 1, v, false) }},
+		{"rns-update-data", regName, func(u, b, v string) sdk.Msg { return rnstypes.NewMsgUpdate(u, "alpha.jkl", v) }},
+		{"notification-contents", nil, func(u, b, v string) sdk.Msg { return notiftypes.NewMsgCreateNotification(b, u, jmap(map[string]string{v: v}), nil) }},
+		{"oracle-feed-name", nil, func(u, b, v string) sdk.Msg { return oracletypes.NewMsgCreateFeed(u, v) }},
+		{"filetree-public-key", nil, func(u, b, v string) sdk.Msg { return fttypes.NewMsgPostKey(u, v) }},
+		{"filetree-contents", provision, func(u, b, v string) sdk.Msg {
+			return fttypes.NewMsgPostFile(u, ftAcct(u), ftMerkle("s"), hexsha("c1"), v, "{}", "{}", c10Track)
+		}},
+		{"filetree-tracking-number", nil, func(u, b, v string) sdk.Msg {
+			return fttypes.NewMsgProvisionFileTree(u, jmap(map[string]string{ftEditorID(v, u): "k"}), jmap(map[string]string{ftViewerID(v, u): "k"}), v)
+		}},
+		{"filetree-access-key", nil, func(u, b, v string) sdk.Msg {
+			return fttypes.NewMsgProvisionFileTree(u, jmap(map[string]string{ftEditorID(c10Track, u): v}), jmap(map[string]string{ftViewerID(c10Track, u): v}), c10Track)
+		}},
+		{"storage-file-note", plan, func(u, b, v string) sdk.Msg { return storagetypes.NewMsgPostFile(u, f.merkle, 12, 0, 0, 1, jmap(map[string]string{v: v})) }},
+		{"storage-provider-keybase", nil, func(u, b, v string) sdk.Msg { return storagetypes.NewMsgInitProvider(b, "https://node.one.com", 1000, v) }},
+		{"storage-provider-ip", nil, func(u, b, v string) sdk.Msg { return storagetypes.NewMsgInitProvider(b, "https://"+v+".com/"+v, 1000, "kb") }},
+		{"storage-provider-new-keybase", provider, func(u, b, v string) sdk.Msg { return storagetypes.NewMsgSetProviderKeybase(b, v) }},
+		{"storage-provider-claimer", provider, func(u, b, v string) sdk.Msg { return storagetypes.NewMsgAddClaimer(b, u) }},
+	}
+	for _, fl := range fields {
+		for _, v := range c19Exotic {
+			fl, v := fl, v
+			e.Cases = append(e.Cases, mc.Case{Desc: fmt.Sprintf("%s=%q", fl.name, clip(v, 24)), Run: func(env world.Env) mc.CaseResult {
+				w := env.W()
+				u, b := w.A("U").Bech, w.A("B").Bech
+				if fl.prep != nil {
+					fl.prep(env, u, b)
+				}
+				if !env.Deliver(fl.msg(u, b, v)).OK() {
+					return mc.CaseResult{Class: "refused/" + fl.name}
+				}
+				vs, _ := c19ModuleRoundTrip(w, env.Ctx())
+				return mc.CaseResult{Class: "round-trip/" + fl.name, Nontrivial: true, Viols: vs}
+			}})
+		}
+	}
+	return e
+}
+
+func clip(s string, n int) string {
+	if len(s) > n {
+		return s[:n] + "..."
+	}
+	return s
+}
+
 func jsonSection(app []byte, module string) string {
 	var m map[string]interface{}
 	if err := json.Unmarshal(app, &m); err != nil {
@@ -637,6 +713,7 @@ func init() {
 	regScenario(C19{})
 	regScenario(C19{Deep: true})
 	CaseReplayers["C19/export-import-volume"] = func(r *mc.Run, c string) { r.ReplayCase(c19VolumeEnum(), c) }
+	CaseReplayers["C19/export-import-contents"] = func(r *mc.Run, c string) { r.ReplayCase(c19ContentsEnum(), c) }
 	Props["C19"] = Prop{Level: "model_checking", Run: func(r *mc.Run, tier string) {
 		r.Rules = append(r.Rules, "BFS over one event per record kind of the six custom modules (provider, collateral, plan+gauge, file, proofs, attestation form, report form; name+primary name, sub-record, bid, listing, init; file-tree root, pubkey, entry; feed; notification, block; minted blocks via NextBlock) in every order allowed by their prerequisites; in every reached state each module is exported, JSON round-tripped, validated and imported into a branch of a fresh node and every (key, value) of its store is compared by record kind, and the export is repeated; selected histories are additionally committed at the ABCI seam, exported with ExportAppStateAndValidators and imported by InitChain on a fresh node")
 		r.Assumptions = append(r.Assumptions, "a superset after import is allowed (e.g. materialised ActiveProviders)", "violations are keyed by (module store, record-kind prefix)")
@@ -645,6 +722,8 @@ func init() {
 		r.AddExplore(C19{Deep: true}, opts(tier, 4, 9, 40, 600, 20, 100))
 		r.Rules = append(r.Rules, "volume: 130 records of each kind (public keys, providers+collateral, names, bids, feeds, notifications, plans+gauges, file-tree roots, files), one kind at a time and all together, then the same round trip (one page of a paginated store walk holds 100)")
 		r.AddEnum(c19VolumeEnum(), workers(), time.Time{})
+		r.Rules = append(r.Rules, "contents: for each of 16 free-text fields a transaction can set (record label, data and value of a name, notification contents and file note as JSON keys and values, feed name, public key, file-tree contents, tracking number and access keys, file note, provider address, identity and claimer) x 11 unusual values (wildcard, non-ASCII, dotted, blank, slash, quote, markup, format verbs, capitals, tab, 320 bytes): where the message is accepted, the full export -> validate -> import -> export round trip")
+		r.AddEnum(c19ContentsEnum(), workers(), time.Time{})
 		paths := [][]string{}
 		all := []string{}
 		for _, k := range c19Kinds {
